@@ -73,6 +73,9 @@ def run(run, model):
     run.do(parity, model)
     from . import c19
     run.do(c19.invariant_init, model)
+    # the message of a contract on an ``async def`` is built like that of a ``def``: the decorator is delimited alike
+    from . import msg
+    run.do(msg.decorator_regex, model, "C13.layout-regex")
     run.minimum("C13.twins", 2)
     run.minimum("C13.await-dispatch", 12)
     run.minimum("C13.sync-reject", 12)
